@@ -488,12 +488,44 @@ def rand_xyz(rng, mag=5e7):
 def rand_psd(rng, n=3):
     a = np.array([[rng.gauss(0, 1) for _ in range(n)] for _ in range(n)])
     scale = 10 ** rng.uniform(-8, -2)
+    r0 = rng.random()
+    if r0 < 0.04:
+        return np.zeros((n, n))          # a fixed (error-free) station
+    if r0 < 0.10:
+        # badly conditioned but perfectly meaningful: one component known to millimetres, another not at all
+        # (a 2-D station: height sd 10-300 m; a levelled mark: horizontal sd tens of metres), eigenvalue ratios to 1e12
+        sds = [10 ** rng.uniform(-3, -2), 10 ** rng.uniform(-3, -2), 10 ** rng.uniform(1, 2.5)]
+        rng.shuffle(sds)
+        d = np.diag([s_ * s_ for s_ in sds[:n]] + [1e-6] * max(0, n - 3))
+        if rng.random() < 0.5:
+            q, _ = np.linalg.qr(a)
+            m = q @ d @ q.T
+            return (m + m.T) / 2
+        return d
     r = rng.random()
     if r < 0.15:
         a[:, 2] = 0      # rank deficient
     if r > 0.85:
         return np.diag([rng.uniform(0, 1) * scale for _ in range(n)])
     return (a @ a.T) * scale
+
+
+def rand_joint_cov(rng):
+    """[var1, var2, cov12] of two stations: blocks of one 6x6 covariance (so that var1 + var2 - cov12 - cov12^T is a
+    covariance too), with a fixed station (zero variance, zero covariance) now and then"""
+    b = np.array([[rng.gauss(0, 1) for _ in range(6)] for _ in range(6)])
+    if rng.random() < 0.15:
+        b[:, 5] = 0
+    s6 = (b @ b.T) * 10 ** rng.uniform(-8, -2)
+    v1, v2, c12 = s6[:3, :3].copy(), s6[3:, 3:].copy(), s6[:3, 3:].copy() * rng.choice([1.0, 0.1, 0.0])
+    r = rng.random()
+    if r < 0.06:
+        v1, c12 = np.zeros((3, 3)), np.zeros((3, 3))
+    elif r < 0.10:
+        v2, c12 = np.zeros((3, 3)), np.zeros((3, 3))
+    elif r < 0.16:
+        v1, v2, c12 = rand_psd(rng), rand_psd(rng), np.zeros((3, 3))
+    return [v1, v2, c12]
 
 
 def g_conform7(rng):
@@ -566,7 +598,7 @@ REGISTRY.update({
     'Statistics.vcv_local2cart_33': (ST.vcv_local2cart, g_vcv33),
     'Statistics.vcv_local2cart_31': (ST.vcv_local2cart, g_vcv31),
     'Statistics.error_ellipse': (ST.error_ellipse, lambda r: [rand_psd(r)]),
-    'Statistics.relative_error': (ST.relative_error, lambda r: g_latlon(r) + [rand_psd(r), rand_psd(r), rand_psd(r) * 0.1]),
+    'Statistics.relative_error': (ST.relative_error, lambda r: g_latlon(r) + rand_joint_cov(r)),
     'Statistics.circ_hz_pu': (ST.circ_hz_pu, lambda r: (lambda a: [a, a * r.uniform(0, 1)])(10 ** r.uniform(-4, 0))),
     'Statistics.k_val95': (ST.k_val95, lambda r: [r.randint(-5, 200)]),
     'Geodesy.enu2xyz': (GD.enu2xyz, g_enu),
